@@ -517,7 +517,9 @@ impl PageCache {
     }
 
     pub fn clear(&self) {
-        let page_count = self.len();
+        // counted while each shard is write-locked: a count taken before the locks goes
+        // stale when another thread inserts or evicts in between
+        let mut page_count = 0;
         #[cfg(kahflane_turdb_verif)]
         crate::verif::point("cache.clear.after_len", &[page_count as i64]);
         #[cfg(kahflane_turdb_verif)]
@@ -530,6 +532,7 @@ impl PageCache {
                 verif_shard += 1;
             }
             let mut guard = shard.write();
+            page_count += guard.entries.len();
             guard.entries.clear();
             guard.index.clear();
             guard.hand = 0;
